@@ -13,6 +13,7 @@ pub mod http;
 pub mod auth;
 pub mod udp;
 pub mod cert;
+pub mod schemepush;
 
 pub fn run(args: &Args, log: &Log) -> Result<(), String> {
     match args.driver.as_str() {
@@ -30,6 +31,7 @@ pub fn run(args: &Args, log: &Log) -> Result<(), String> {
         "auth" => auth::run(args, log),
         "udp" => udp::run(args, log),
         "cert" => cert::run(args, log),
+        "schemepush" => schemepush::run(args, log),
         d => Err(format!("unknown driver {d}")),
     }
 }
